@@ -138,7 +138,13 @@ def make_cfn(k, kind, m):
     out['trace'] = out['trace'] * 31 + k + idh(client_id)
     return out
 
-  return f
+  def f_inplace(client_id, ex):
+    # "assign into the dict you are given and return it" (not idempotent: applied to the stored examples themselves it would
+    # compound from one materialisation of the client to the next)
+    ex['trace'] = ex['trace'] * 31 + k + idh(client_id)
+    return ex
+
+  return f_inplace if (kind != 'head' and k % 2) else f
 
 
 def make_bfn(k):
